@@ -254,6 +254,9 @@ class C17:
                 for nb in sorted({0, 1, extra // 2, extra - 1}):
                     flist.append((("op", idx, ("crash-after-bytes", nb)), "write-crash-after-bytes", kind))
                     flist.append((("op", idx, ("short-then-error", faults.ERRNOS["ENOSPC"], nb)), "write-short-then-enospc", kind))
+                    if path.startswith("fd") and nb:
+                        # descriptor-level write: the kernel may accept only part of the data WITHOUT raising
+                        flist.append((("op", idx, ("short-silent", nb)), "write-short-silent", kind))
         execs = 0
         bad_samples = []
         for n, (fault, fkind, where) in enumerate(flist):
@@ -442,9 +445,9 @@ class C18:
         rng = random.Random(case["seed"])
         commands, recheck, utils = drive.mod("commands"), drive.mod("recheck"), drive.mod("utils")
         reach = env.Reach()
-        reach.start({"commands.info": commands.info, "commands.recheck": commands.recheck, "commands.magnet": commands.magnet,
-                     "commands.create": commands.create, "commands.rename": commands.rename,
-                     "utils.check_path_writable": utils.check_path_writable, "Checker.log_msg": recheck.Checker.log_msg})
+        reach.start({"commands.info": env.Tolerant(commands).info, "commands.recheck": env.Tolerant(commands).recheck, "commands.magnet": env.Tolerant(commands).magnet,
+                     "commands.create": env.Tolerant(commands).create, "commands.rename": env.Tolerant(commands).rename,
+                     "utils.check_path_writable": env.Tolerant(utils).check_path_writable, "Checker.log_msg": env.Tolerant(recheck).Checker.log_msg})
         sb = os.path.join(scratch, "sb")
         tree = case["tree"]
         base = os.path.join(sb, "content")
